@@ -248,8 +248,23 @@ func c19GenSystem(t *rapid.T) c19Sys {
 	}
 
 	// ----- service apps with a call graph (every call target exists) -----
+	// two abstract applications that service applications mix in (their mixin lines and the alias
+	// numbers of the mixed-in applications are part of the integration diagram)
+	useMixins := rapid.IntRange(0, 2).Draw(t, "svcmixins") != 0
+	if useMixins {
+		for _, mx := range []string{"MixAudit", "MixObserve"} {
+			w.l(0, mx+" [~abstract]:")
+			w.l(1, "!type "+mx+"Info:")
+			w.l(2, "id <: int")
+			w.l(0, "")
+		}
+		out.Classes = append(out.Classes, "service_apps_with_mixins")
+	}
 	for si, s := range svcNames {
 		w.l(0, s+c19Attrs(t, "svcattr")+":")
+		if useMixins && rapid.IntRange(0, 2).Draw(t, "hasmixin") != 0 {
+			w.l(1, "-|> "+pick(t, []string{"MixAudit", "MixObserve"}, "mixinof"))
+		}
 		for _, e := range svcEps[s] {
 			params := ""
 			if rapid.Bool().Draw(t, "svcparams") {
